@@ -16,6 +16,7 @@ package codec
 //@   ensures [cap-is-2^21-1] MaximumFrameLength == 2097151
 //@   ensures [header-error-is-an-error] called(hdr) && (res(hdr, 2) != nil ==> err != nil && !called(body))
 //@   ensures [negative-or-oversized-rejected] res(hdr, 2) == nil && (res(hdr, 0) < 0 || res(hdr, 0) > MaximumFrameLength) ==> err != nil && !called(body)
+//@   ensures [in-range-frames-are-read] res(hdr, 2) == nil && res(hdr, 0) > 0 && res(hdr, 0) <= 2097151 ==> called(body)
 //@   ensures [empty-frame-is-skipped] res(hdr, 2) == nil && res(hdr, 0) == 0 ==> err == nil && len(payload) == 0 && !called(body)
 //@   ensures [body-error-is-an-error] called(body) && res(body, 1) != nil ==> err != nil
 //@   ensures [payload-is-the-body] called(body) && res(body, 1) == nil ==> err == nil && ref(payload) == ref(arg(body, 1)) && len(payload) == res(hdr, 0) && n == res(hdr, 1) + res(body, 0)
@@ -49,11 +50,14 @@ package codec
 //@   requires rwf(d.rd) && (d.zrd != nil ==> ref(d.zrd) != ref(d.rd)) && ref(rd) != ref(d.rd)
 //@   ensures [wf] d.rd == old(d.rd) && rwf(d.rd) && (d.zrd != nil ==> ref(d.zrd) != ref(d.rd))
 //@   at-call ReadFull as fill: assert [bounds-before-allocation] claimedUncompressedSize >= d.compressionThreshold && claimedUncompressedSize <= ite(d.direction == proto.ServerBound, 2097152, 8388608) && len(arg1) == claimedUncompressedSize && arg0 == d.zrd
+//@   at-call NewReader as newr: assert arg0 == rd
+//@   at-call Reset as reset: assert arg1 == rd
 //@   at-call Read as probe: assert called(fill) && res(fill, 1) == nil && len(arg1) == 1 && arg0 == d.zrd
 //@   at-call Close as fin: assert called(probe) && res(probe, 0) <= 0
 //@   ensures [caps] ServerboundUncompressedCap == 2097152 && UncompressedCap == 8388608
 //@   ensures [below-threshold-rejected] claimedUncompressedSize < old(d.compressionThreshold) ==> err != nil && !called(fill)
 //@   ensures [above-cap-rejected] claimedUncompressedSize > ite(old(d.direction) == proto.ServerBound, 2097152, 8388608) ==> err != nil && !called(fill)
+//@   ensures [in-range-claims-are-inflated] claimedUncompressedSize >= old(d.compressionThreshold) && claimedUncompressedSize <= ite(old(d.direction) == proto.ServerBound, 2097152, 8388608) ==> called(fill) || (err != nil && ((called(newr) && res(newr, 1) != nil) || (called(reset) && res(reset) != nil)))
 //@   ensures [short-inflate-rejected] called(fill) && res(fill, 1) != nil ==> err != nil
 //@   ensures [long-inflate-rejected] called(probe) && res(probe, 0) > 0 ==> err != nil
 //@   ensures [exact-inflate-is-the-payload] called(fin) ==> ref(decompressed) == ref(arg(fill, 1)) && len(decompressed) == claimedUncompressedSize && err == res(fin)
